@@ -219,6 +219,10 @@ class Context:
                 for process in status.processes.values():
                     if status.identifier in process.running_identifiers:
                         process.invalidate_identifier(status.identifier)
+                # NOTE: a process still running elsewhere is not a failure but its synthetic state may have changed
+                #       so the status of all applications involved is re-evaluated
+                for application_name in {process.application_name for process in status.processes.values()}:
+                    self.applications[application_name].update()
         # trigger the corresponding Supvisors events
         self.publish_process_failures(failed_processes)
         #  return the identifiers of all invalidated Supvisors instances and the processes declared in failure
